@@ -10,8 +10,8 @@ import (
 
 // A small model of package reflect, answered from go/types: enough for code that
 // walks the fields of a struct type and addresses the fields of a struct value
-// (helper.NewCsv, Csv.ReadFromReader). Setting values through reflection is left
-// to stubs.
+// (helper.NewCsv, Csv.ReadFromReader), and for reading / writing scalar fields through
+// reflect.Value (serial.go).
 
 // reflType is the executor's reflect.Type value.
 type reflType struct{ t types.Type }
@@ -135,6 +135,9 @@ func (ex *Exec) reflTypeMethod(name string, rt reflType, args []Value, res types
 }
 
 func (ex *Exec) reflIntrinsic(n string, fn *ssa.Function, args []Value) Value {
+	if v, ok := ex.reflValueOp(n, args); ok {
+		return v
+	}
 	switch n {
 	case "reflect.TypeOf":
 		i := args[0].(Iface)
